@@ -28,12 +28,12 @@ Fixpoint groups (fuel : nat) (nc : nat) (l : list Z) : list (list Z) :=
 (** ComputeBitLengths: one bit length per chunk, from the largest component. *)
 Definition group_tag (g : list Z) : Z := bit_length (zmax_list g).
 
-(** What the real encoder accepts without undefined behaviour (defect D6): every symbol fits
-    ComputeShannonEntropy's `int max_value` with max_value + 1 not overflowing (so symbols <= 2^31 - 2; this also
-    keeps every bit length <= 31, the last valid index of TaggedBitLengthFrequencies[32]); the number of values is
-    a multiple of num_components (ComputeBitLengths reads symbols[i + j] unchecked) and fits `int`. *)
+(** The C++ signature: `const uint32_t *symbols, int num_values`, read in chunks of num_components
+    (ComputeBitLengths reads symbols[i + j] unchecked, so num_values must be a multiple of num_components).
+    Nothing else is assumed: since the fix of defect D6 (commit 213a728) EncodeSymbols itself rejects values that
+    need all 32 bits, and never builds a histogram for values the raw scheme cannot code. *)
 Definition sym_guard (nc : Z) (syms : list Z) : bool :=
-  forallb (fun s => (0 <=? s) && (s <=? 2 ^ 31 - 2)) syms
+  forallb (fun s => (0 <=? s) && (s <? 2 ^ 32)) syms
   && (zlen syms mod (if nc <=? 0 then 1 else nc) =? 0)
   && (zlen syms <? 2 ^ 31).
 
@@ -124,22 +124,30 @@ Definition enc_raw (lvl : Z) (syms : list Z) : option bytes :=
 
 (** EncodeSymbols(symbols, num_values, num_components, options, target).  [method]: the scheme (forced through
     the option "symbol_encoding_method", or chosen from the estimates); [lvl]: "symbol_encoding_compression_level"
-    (7 when unset).  [None] = `return false`.  Outside [sym_guard] the C++ has undefined behaviour / crashes; the
-    model answers [None] there as well and no theorem speaks about that region. *)
+    (7 when unset).  [None] = `return false`:
+      - max_value_bit_length >= kMaxTagSymbolBitLength (32): neither scheme has a tag for it;
+      - the raw scheme asked for values of more than kMaxRawEncodingBitLength (18) bits (the automatic choice
+        never does that, see [auto_method_ok]) or for more than 2^18 - 1 distinct symbols;
+      - an unknown scheme value.
+    Inputs outside [sym_guard] are not inputs of the C++ function (see there); the model answers [None]. *)
 Definition enc_symbols (method lvl nc : Z) (syms : list Z) : option bytes :=
   match syms with
   | [] => Some []
   | _ =>
     if negb (sym_guard nc syms) then None else
     let nc' := if nc <=? 0 then 1 else nc in
+    let bl := bit_length (zmax_list syms) in
+    if bl >=? 32 then None else
     if method =? 0 then
       match enc_tagged (Z.to_nat nc') syms with Some b => Some (0 :: b) | None => None end
     else if method =? 1 then
+      if bl >? 18 then None else
       match enc_raw lvl syms with Some b => Some (1 :: b) | None => None end
     else None
   end.
 
-(** The mechanical half of the automatic choice: more than 18 value bits force the tagged scheme. *)
+(** The mechanical half of the automatic choice: more than 18 value bits select the tagged scheme (the other
+    half compares two log2-based estimates). *)
 Definition auto_method_ok (syms : list Z) (method : Z) : bool :=
   (method =? 0) || ((method =? 1) && (bit_length (zmax_list syms) <=? 18)).
 
